@@ -36,18 +36,25 @@ static void set_clip_live (rq_image *im, int use16)
     else { pixman_region32_t r; pixman_region32_init_rects (&r, im->clip, im->n_clip); pixman_image_set_clip_region32 (im->img, &r); pixman_region32_fini (&r); }
 }
 
+static int force_scroll;      /* the next setter is a pure translation change of the current matrix */
 /* one random setter on the live image of `role`; the record is updated to the new final state */
 static const char *mutate (vf_rng *r, int role)
 {
     rq_image *im = role_img (&L, role);
     rq_image tmp;
     int is_bits = im->kind == RQ_BITS;
-    switch (vf_next (r) % 17) {
+    int which = (int)(vf_next (r) % 17); if (force_scroll) which = 0;
+    switch (which) {
     case 0: { /* transform: new, identity, NULL, or the identical value again */
-        int k = (int)(vf_next (r) % 5);
+        int k = (int)(vf_next (r) % 6); if (force_scroll) k = 3;
         if (k == 0) { im->tr_class = TR_NONE; pixman_transform_init_identity (&im->tr); pixman_image_set_transform (im->img, NULL); return "set_transform(NULL)"; }
         if (k == 1) { im->tr_class = TR_IDENTITY; pixman_transform_init_identity (&im->tr); pixman_image_set_transform (im->img, &im->tr); return "set_transform(identity)"; }
         if (k == 2) { if (im->tr_class != TR_NONE) pixman_image_set_transform (im->img, &im->tr); return "set_transform(same value)"; }
+        if (k == 3 && im->tr_class != TR_NONE) {   /* same matrix, only the translation moves: between whole pixels and fractions (filters reduce to NEAREST only for the former) */
+            static const pixman_fixed_t fr[] = { 0, 0, 0x8000, 0x4000, 0x2345, 0xc000 };
+            im->tr.matrix[0][2] = (pixman_fixed_t)(vf_range (r, -4, 9) * 65536) + VF_PICK (r, fr); im->tr.matrix[1][2] = (pixman_fixed_t)(vf_range (r, -3, 6) * 65536) + VF_PICK (r, fr);
+            if (im->tr_class == TR_IDENTITY || im->tr_class == TR_INT_TRANSLATE) im->tr_class = TR_FRAC_TRANSLATE;
+            pixman_image_set_transform (im->img, &im->tr); return "set_transform(same matrix, new translation)"; }
         memset (&tmp, 0, sizeof tmp); rq_gen_transform (r, &tmp, (int)vf_range (r, TR_INT_TRANSLATE, TR_PROJECTIVE), 0);
         im->tr = tmp.tr; im->tr_class = tmp.tr_class; pixman_image_set_transform (im->img, &im->tr); return "set_transform(new)"; }
     case 1: { static const int fl[] = { PIXMAN_FILTER_NEAREST, PIXMAN_FILTER_BILINEAR, PIXMAN_FILTER_FAST, PIXMAN_FILTER_GOOD, PIXMAN_FILTER_BEST, PIXMAN_FILTER_CONVOLUTION, PIXMAN_FILTER_CONVOLUTION, PIXMAN_FILTER_SEPARABLE_CONVOLUTION };
@@ -122,6 +129,12 @@ static void hist_case (long idx, vf_rng *r)
 {
     rq_generate (r, &L, RQP_NO_INDEXED * 0);
     memset (lx, 0, sizeof lx); for (int i = 0; i < 3; i++) lx[i].other = -1;
+    /* a quarter of the programs have a "scrolling" source: an interpolating filter and a matrix that starts as a whole-pixel translation and is
+     * then moved about, on and off the pixel grid, with a composite after every move */
+    int scroller = L.src.kind == RQ_BITS && vf_chance (r, 1, 4);
+    if (scroller) { L.src.tr_class = TR_INT_TRANSLATE; pixman_transform_init_identity (&L.src.tr); L.src.tr.matrix[0][2] = (pixman_fixed_t)(vf_range (r, -3, 6) * 65536); L.src.tr.matrix[1][2] = (pixman_fixed_t)(vf_range (r, -2, 4) * 65536);
+        if (vf_chance (r, 1, 3)) { L.src.tr.matrix[0][0] = 0; L.src.tr.matrix[0][1] = -65536; L.src.tr.matrix[1][0] = 65536; L.src.tr.matrix[1][1] = 0; L.src.tr.matrix[0][2] += 8 * 65536; L.src.tr_class = TR_ROT90; }
+        L.src.filter = VF_PICK (r, ((int[]){ PIXMAN_FILTER_BILINEAR, PIXMAN_FILTER_GOOD, PIXMAN_FILTER_BEST })); L.src.n_params = 0; }
     /* every bits image gets an alpha-map object to play with (attached or not) */
     for (int role = 0; role < 3; role++) { rq_image *im = role_img (&L, role); if (role == 1 && !L.has_mask) continue; if (im->kind == RQ_BITS && !im->alpha_map) { im->am_x = 0; im->am_y = 0; im->am_w = im->w; im->am_h = im->h; } }
     /* build with alpha maps present, then detach those the record says are absent */
@@ -138,10 +151,11 @@ static void hist_case (long idx, vf_rng *r)
         if (L.pixbuf && role == 1) role = 0;
         if (role_img (&L, role)->kind == RQ_SOLID && vf_chance (r, 1, 2)) role = 2;
         vf_inflight ("history step %d: setter on %s", step, role == 0 ? "source" : role == 1 ? "mask" : "destination");
-        const char *what = mutate (r, role);
+        int scroll_now = scroller && vf_chance (r, 1, 3); if (scroll_now) { role = 0; force_scroll = 1; }
+        const char *what = mutate (r, role); force_scroll = 0;
         if (what && hk < 1200) hk += snprintf (hist + hk, sizeof hist - hk, "%s.%s; ", role == 0 ? "src" : role == 1 ? "mask" : "dst", what);
         if (what) { vf_label ("setters", "%s/%s", role == 0 ? "src" : role == 1 ? "mask" : "dst", what); vf_count ("setter_calls", 1); }
-        if (!vf_chance (r, 1, 3) && step != 29) continue;
+        if (!scroll_now && !vf_chance (r, 1, 3) && step != 29) continue;
         /* ---- composite on the live images and on fresh replicas ---- */
         if (vf_chance (r, 1, 2)) L.op = ro_ops[vf_next (r) % ro_nops];
         if (vf_chance (r, 1, 3)) { static rq_request t; t = L; rq_gen_geometry (r, &t, 0); L.sx = t.sx; L.sy = t.sy; L.mx = t.mx; L.my = t.my; L.dx = t.dx; L.dy = t.dy; L.w = t.w; L.h = t.h; }
